@@ -278,7 +278,7 @@ where
                     v[start..end].reverse();
                 } else {
                     while start > 0
-                        && forward_err!(is_less(
+                        && !forward_err!(is_less(
                             v.get_unchecked(start),
                             v.get_unchecked(start - 1)
                         )?)
